@@ -81,6 +81,7 @@ type PointRec struct {
 	G       int    // goroutine that was running when the decision was taken (-1 none)
 	NEn     int    // number of enabled alternatives
 	CurEn   int    // how many leading alternatives belong to the running goroutine (cost 0)
+	Free    int    // how many leading alternatives belong to the default goroutine (the running one if enabled, else the lowest id)
 	Chosen  int    // index chosen
 	ChosenG int    // goroutine chosen
 	Kind    string // op kind chosen
@@ -472,7 +473,11 @@ func (e *Exec) pickLocked(self *G) *G {
 	if self != nil {
 		selfID = self.id
 	}
-	e.Points = append(e.Points, PointRec{G: selfID, NEn: len(alts), CurEn: curEn, Chosen: idx, ChosenG: a.g.id, Kind: kindNames[a.g.pending.kind]})
+	free := 0
+	for free < len(alts) && alts[free].g == alts[0].g {
+		free++
+	}
+	e.Points = append(e.Points, PointRec{G: selfID, NEn: len(alts), CurEn: curEn, Free: free, Chosen: idx, ChosenG: a.g.id, Kind: kindNames[a.g.pending.kind]})
 	// Perform the rendezvous / record the chosen case.
 	p := a.g.pending
 	if !p.completed {
